@@ -1,0 +1,158 @@
+//go:build verif
+
+package main
+
+// Driver for the correspondence check of property C19 (/verif): runs the real main()
+// with the static registry backend and the upstream limits given in VERIF_C19_IN, waits
+// for the proxy listener and reports, for every target of the installed routing table,
+// the limit fields of its private transport (route.addTarget builds one for a host
+// override on an https destination), and what a client of the proxy observes for an
+// upstream that answers after the given delays. One configuration per process: main()
+// parses flags and keeps its state in package variables. Skipped unless VERIF_C19_IN is set.
+
+import (
+	"encoding/json"
+	"fmt"
+	"io"
+	"net"
+	"net/http"
+	"net/http/httptest"
+	"os"
+	"sync/atomic"
+	"testing"
+	"time"
+
+	"github.com/fabiolb/fabio/route"
+)
+
+type verifC19In struct {
+	RHT, Idle, Dial, KeepAlive int64 // ns
+	MaxConn                    int
+	Delays                     []int64 // ms, one request per route and delay
+}
+
+type verifC19Target struct {
+	Path         string
+	HasTransport bool
+	RHT, Idle    int64
+	MaxIdle      int
+	ServerName   string
+	Skip         bool
+}
+
+type verifC19Req struct {
+	Path    string
+	DelayMs int64
+	Status  int
+	Elapsed int64 // ms
+	Hits    int64 // requests the upstream received for this client request
+}
+
+type verifC19Out struct {
+	Targets []verifC19Target
+	Reqs    []verifC19Req
+}
+
+func verifC19FreeAddr() string {
+	l, err := net.Listen("tcp", "127.0.0.1:0")
+	if err != nil {
+		panic(err)
+	}
+	defer l.Close()
+	return l.Addr().String()
+}
+
+func TestVerifC19(t *testing.T) {
+	inFile, outFile := os.Getenv("VERIF_C19_IN"), os.Getenv("VERIF_C19_OUT")
+	if inFile == "" || outFile == "" {
+		t.Skip("VERIF_C19_IN / VERIF_C19_OUT not set")
+	}
+	var in verifC19In
+	b, err := os.ReadFile(inFile)
+	if err != nil {
+		t.Fatal(err)
+	}
+	if err := json.Unmarshal(b, &in); err != nil {
+		t.Fatal(err)
+	}
+
+	var hits int64
+	upstream := httptest.NewTLSServer(http.HandlerFunc(func(w http.ResponseWriter, r *http.Request) {
+		atomic.AddInt64(&hits, 1)
+		var ms int64
+		fmt.Sscanf(r.URL.Query().Get("delay"), "%d", &ms)
+		time.Sleep(time.Duration(ms) * time.Millisecond)
+		io.WriteString(w, "OK")
+	}))
+	defer upstream.Close()
+
+	proxyAddr, uiAddr := verifC19FreeAddr(), verifC19FreeAddr()
+	routes := fmt.Sprintf("route add override /override %s opts \"host=upstream.example tlsskipverify=true\"\n"+
+		"route add skipverify /skipverify %s opts \"tlsskipverify=true\"\n", upstream.URL, upstream.URL)
+	os.Args = []string{"fabio",
+		"-insecure",
+		"-proxy.addr", proxyAddr,
+		"-ui.addr", uiAddr,
+		"-registry.backend", "static",
+		"-registry.static.routes", routes,
+		"-proxy.responseheadertimeout", time.Duration(in.RHT).String(),
+		"-proxy.idleconntimeout", time.Duration(in.Idle).String(),
+		"-proxy.dialtimeout", time.Duration(in.Dial).String(),
+		"-proxy.keepalivetimeout", time.Duration(in.KeepAlive).String(),
+		"-proxy.maxconn", fmt.Sprint(in.MaxConn),
+		"-log.level", "ERROR",
+	}
+	go main()
+
+	deadline := time.Now().Add(15 * time.Second)
+	for {
+		c, err := net.Dial("tcp", proxyAddr)
+		if err == nil {
+			c.Close()
+			break
+		}
+		if time.Now().After(deadline) {
+			t.Fatal("proxy did not come up: ", err)
+		}
+		time.Sleep(20 * time.Millisecond)
+	}
+
+	var out verifC19Out
+	for _, routes := range route.GetTable() {
+		for _, r := range routes {
+			for _, tg := range r.Targets {
+				vt := verifC19Target{Path: r.Path, HasTransport: tg.Transport != nil}
+				if tr := tg.Transport; tr != nil {
+					vt.RHT, vt.Idle, vt.MaxIdle = int64(tr.ResponseHeaderTimeout), int64(tr.IdleConnTimeout), tr.MaxIdleConnsPerHost
+					if tr.TLSClientConfig != nil {
+						vt.ServerName, vt.Skip = tr.TLSClientConfig.ServerName, tr.TLSClientConfig.InsecureSkipVerify
+					}
+				}
+				out.Targets = append(out.Targets, vt)
+			}
+		}
+	}
+	client := &http.Client{Timeout: 30 * time.Second}
+	for _, path := range []string{"/skipverify", "/override"} {
+		for _, d := range in.Delays {
+			before := atomic.LoadInt64(&hits)
+			start := time.Now()
+			resp, err := client.Get(fmt.Sprintf("http://%s%s?delay=%d", proxyAddr, path, d))
+			rq := verifC19Req{Path: path, DelayMs: d, Status: -1}
+			if err == nil {
+				io.Copy(io.Discard, resp.Body)
+				resp.Body.Close()
+				rq.Status = resp.StatusCode
+			}
+			rq.Elapsed = time.Since(start).Milliseconds()
+			// a request the proxy has given up on may still be running in the upstream
+			time.Sleep(30 * time.Millisecond)
+			rq.Hits = atomic.LoadInt64(&hits) - before
+			out.Reqs = append(out.Reqs, rq)
+		}
+	}
+	b, _ = json.Marshal(out)
+	if err := os.WriteFile(outFile, b, 0o644); err != nil {
+		t.Fatal(err)
+	}
+}
